@@ -957,6 +957,26 @@ def direct_extras(R, rng, tier):
                                          f'{[(int(k), np.asarray(v).tolist()) for k, v in zip(f.keys(), f.values())]}'[:500], keys=ks, values=arr.tolist())
                 except Exception as e:  # noqa
                     viol('asfullmv-raises', f'asfullmv of an ndarray-backed multivector raised {type(e).__name__}: {e}'[:300], keys=ks)
+    # a mapping that is not a dict (MappingProxyType, UserDict, ChainMap) is a mapping: blades by name / key, like the dict with the same items
+    from types import MappingProxyType
+    from collections import UserDict, ChainMap
+    for it in range(4 if tier == 'quick' else 30):
+        d = rng.choice((2, 3))
+        alg = Algebra(d)
+        names = [n_ for n_ in alg.canon2bin if len(n_) == 2]
+        items_ = {n_: rng.randint(1, 9) for n_ in rng.sample(names, rng.randint(1, len(names)))}
+        for label, M_ in (('MappingProxyType', MappingProxyType(dict(items_))), ('UserDict', UserDict(items_)), ('ChainMap', ChainMap(dict(items_)))):
+            for ctor in ('vector', 'multivector'):
+                R.count('extras=non-dict-mapping'); R.case(('extras-mapping', it, label, ctor, tuple(items_)), True)
+                def outcome(arg):
+                    try:
+                        m_ = getattr(alg, ctor)(arg)
+                        return ('ok', {int(k_): v_ for k_, v_ in zip(m_.keys(), m_.values())})
+                    except Exception as e:  # noqa
+                        return ('err', type(e).__name__)
+                g_, w_ = outcome(M_), outcome(dict(items_))
+                if g_ != w_:
+                    viol('mapping', f'alg.{ctor}({label}({items_})) in Algebra({d}) gives {g_}, the dict with the same items gives {w_}', items=items_, mapping=label, ctor=ctor)
     # keys given as numpy integers (signed, unsigned, small widths): the multivector is the one built from python ints - same stored keys,
     # same coefficients by name, and products with it are the products of that element (an unsigned key must not wrap around in a filter)
     for it in range(6 if tier == 'quick' else 60):
